@@ -5,8 +5,33 @@ import os
 
 from . import transforms
 
-FAULTS = {}     # property -> list of (name, relpath, old, new, [expected rule prefixes])
-BENIGN = {}     # property -> list of (name, relpath, old, new)
+import glob
+import json
+import subprocess
+
+from .corpus import FAULTS, BENIGN     # property -> [(name, relpath, old, new, [expected rule prefixes])] / [(name, relpath, old, new)]
+
+HERE = os.path.dirname(os.path.dirname(os.path.abspath(__file__)))
+
+
+def _patch(path):
+    def apply(root):
+        r = subprocess.run("patch -p1 -s --no-backup-if-mismatch < %s" % path, shell=True, cwd=root, capture_output=True, text=True)
+        return r.returncode == 0
+    return apply
+
+
+def seeded_for(prop):
+    """Independently written regressions kept under /verif/seeded (see seeded/*/meta.json): they must be reported too."""
+    out = []
+    for meta in sorted(glob.glob(os.path.join(HERE, "seeded", "*", "meta.json"))):
+        try:
+            m = json.load(open(meta))
+        except Exception:
+            continue
+        if prop in m.get("detected_by", []) and m.get("expect_detected", True):
+            out.append(dict(name="seeded:" + os.path.basename(os.path.dirname(meta)), kind="fault", apply=_patch(os.path.join(os.path.dirname(meta), "patch.diff")), expect=[]))
+    return out
 
 
 def _edit(rel, old, new):
@@ -28,4 +53,5 @@ def for_property(prop):
         out.append(dict(name=name, kind="fault", apply=_edit(rel, old, new), expect=expect))
     for (name, rel, old, new) in BENIGN.get(prop, []):
         out.append(dict(name=name, kind="benign", apply=_edit(rel, old, new)))
+    out += seeded_for(prop)
     return out
